@@ -373,15 +373,15 @@ static int tg_reserved_class(const char *c)
     return strncmp(c, _HDF_CHK_TBL_CLASS, strlen(_HDF_CHK_TBL_CLASS)) == 0;
 }
 
-/* longest names the generator asks for.  The library accepts one character more for each of them (VSNAMELENMAX = 64 for vdata
-   names / classes and the names of vgroup and vdata attributes, H4_MAX_NC_NAME = 256 for data set and dimension names, any length
-   for image names), but hrepack's name buffers are one byte short for exactly those values (findings hrepack-vs-name-buffer,
-   hrepack-sd-name-buffer, gr-name-unbounded): raise to 64 / 256 / 256 (-DTG_VSNAME_MAX=64 ...) once they are repaired */
+/* longest names the generator asks for: VSNAMELENMAX = 64 for vdata names / classes and the names of vgroup and vdata attributes,
+   H4_MAX_NC_NAME = 256 for data set and dimension names (hrepack's buffers were one byte short for exactly those values: fixed by
+   88cb01e and 0150cb3).  Image names: the library accepts any length up to 65535 but GRgetiminfo copies into char[H4_MAX_GR_NAME]
+   of every tool (finding gr-name-unbounded, proposed fix repro/tools/fix-c-grcreate-name-limit.diff): 255 until that is settled */
 #ifndef TG_VSNAME_MAX
-#define TG_VSNAME_MAX 63
+#define TG_VSNAME_MAX 64
 #endif
 #ifndef TG_SDNAME_MAX
-#define TG_SDNAME_MAX 255
+#define TG_SDNAME_MAX 256
 #endif
 #ifndef TG_GRNAME_MAX
 #define TG_GRNAME_MAX 255
